@@ -484,7 +484,7 @@ func C12(r *vlib.Run) {
 		{{Src: "s", Items: []c12Item{n("a.go", "same")}}, {Src: "t", Items: []c12Item{n("a.go", "same"), {Point: "imports", Content: "<P1>"}, n("b", "k"+c12mk("imports"))}}},
 		{{Src: "s", Items: []c12Item{n("a.go", "1"), n("a.go", "2"), n("a.go", "3"), n("a.go", "2"), n("a.go", "4")}}},
 	}
-	total := r.N(60000, 3000000)
+	total := r.N(60000, 1500000)
 	rng := vlib.NewRng(r.Seed, "c12")
 	run := func(h c12History, sample bool) {
 		keys, detail := c12Check(h)
